@@ -67,6 +67,13 @@ impl Completions {
             let timeout = if shared.polling.set_polling(true) {
                 // Got woken up, so polling without a timeout.
                 Some(Duration::ZERO)
+            } else if shared.has_blocked_futures() {
+                // Futures are waiting for a submission slot. Entering the
+                // kernel below makes room for them, after which they are woken.
+                // If we would wait for a completion first they might never
+                // be, as the operations they want to start might be the only
+                // ones that can complete.
+                Some(Duration::ZERO)
             } else {
                 timeout
             };
